@@ -6,10 +6,12 @@ from .common import Run, all_flags, corpus_cases, generic_replay, parse_list
 PROP = "C16"
 MODULE = "PLS.Props.C16C"     # imports PLS.Props.C16T, which imports PLS.Props.C16
 THEOREMS = ["PLS.C16_scope_order", "PLS.C16_scope_table", "PLS.C16_mismatch_sound", "PLS.C16_mismatch_complete",
-            "PLS.C16_single_def_is_resolved", "PLS.C16_unknown_deps_dropped", "PLS.C16_known_deps_kept",
+            "PLS.C16_mismatch_iff_resolved", "PLS.C16_scopeRes_mem", "PLS.C16_unknown_deps_dropped", "PLS.C16_known_deps_kept",
             "PLS.C16_reported_cycles_are_cycles", "PLS.C16_every_cycle_is_hit", "PLS.C16_every_cycle_meets_a_report",
             "PLS.DfsC.inv3_step", "PLS.DfsC.key_inj", "PLS.DfsS.inv2_step", "PLS.DfsS.sound_step", "PLS.DfsS.reported_closed",
             "PLS.C12_dfs_terminates", "PLS.C12_dfs_fuel_irrelevant"]
+# where the scope verdict can deviate since the E14 repair: exactly where resolution itself does
+RESFLAGS = {"imp-first", "alias", "multiline-self", "imp-order-sensitive", "import-cycle", "unparsable-conftest"}
 RULE = ("random dependency graphs over 3-6 fixture names spread over root conftest, sub conftest, a test module and a "
         "sibling: self loops with and without a parent, several SCCs, cycles through overridden names, dependencies on "
         "unknown names (first, middle, last), all five scopes; each workspace indexed under two orders. Reported cycles "
@@ -202,18 +204,18 @@ def run(tier, seed):
                             pair = f"{d}=>{t}"
                             if pair in got and t not in narrower:
                                 flags_backup = flags
-                                flags |= (mflags & {"dep-multi-def", "dep-head-not-resolved"})
-                                report(f"scope mismatch reported for {pair} although {t} is not narrower", ["dep-multi-def", "dep-head-not-resolved", "multi-def-name"], k)
+                                flags |= (mflags & RESFLAGS)
+                                report(f"scope mismatch reported for {pair} although {t} is not narrower", sorted(RESFLAGS), k)
                         listed = [x for x in got if x.startswith(d + "=>") and x.rsplit(":", 1)[1] == dep]
                         if must and not listed:
-                            hyp = ["dep-multi-def", "dep-head-not-resolved", "multi-def-name"]
-                            flags |= (mflags & {"dep-multi-def", "dep-head-not-resolved"})
+                            hyp = sorted(RESFLAGS)
+                            flags |= (mflags & RESFLAGS)
                             report(f"{d} ({scope_of[d]}) depends on {dep} which resolves to {ts} of narrower scope, but no mismatch is reported", hyp, k)
                         for x in listed:
                             tgt = x.split("=>", 1)[1]
                             if tgt not in ts:
-                                flags |= (mflags & {"dep-multi-def", "dep-head-not-resolved"})
-                                report(f"scope mismatch reported against {tgt}, which is not the definition {dep} resolves to from {f} ({ts})", ["dep-multi-def", "dep-head-not-resolved", "multi-def-name"], k)
+                                flags |= (mflags & RESFLAGS)
+                                report(f"scope mismatch reported against {tgt}, which is not the definition {dep} resolves to from {f} ({ts})", sorted(RESFLAGS), k)
     r.stats["reported_cycles_checked"] = ncyc
     r.stats["fixture_dependency_pairs_checked"] = nmis
     return r.finish(RULE)
